@@ -54,6 +54,9 @@ BadSendEvents ==   \* sends that must fail: wrong sequence, empty data, unknown 
   \cup UNION {{[act |-> "Send", c |-> c,
     pkt |-> [src |-> b[1], dst |-> b[2], relay |-> b[3], port |-> "mock", seq |-> 1, data |-> "d1"]] :
      b \in {<<c, "Z", "">>, <<"Z", c, "">>, <<c, "Z", "Z">>}} : c \in Senders}
+  \cup {[act |-> "Send", c |-> c,     \* unknown relay chain although the destination is directly connected
+    pkt |-> [src |-> c, dst |-> d, relay |-> "Z", port |-> "mock", seq |-> NsR(cs[c], c, d), data |-> "d1"]] :
+     c \in Senders, d \in Dests}
 CleanEvents ==
   {[act |-> "Clean", c |-> c, cp |-> [src |-> c, dst |-> d, relay |-> rl, seq |-> n]] :
      c \in Senders, d \in Dests, rl \in UserRelays, n \in 1..MaxSeq}
